@@ -15,10 +15,11 @@ pub struct Ctx { pub tier: String, pub seed: u64, pub driver: Driver, pub thorou
 
 fn main() {
     let args: Vec<String> = std::env::args().collect();
-    if args.len() < 6 && !(args.len() >= 3 && (args[1] == "replay-step" || args[1] == "print-ast" || args[1] == "rerun-step")) {
+    if args.len() < 6 && !(args.len() >= 3 && (args[1] == "replay-step" || args[1] == "print-ast" || args[1] == "rerun-step" || args[1] == "c01-child")) {
         eprintln!("usage: aquaharness <property> <quick|thorough> <seed> <driver> <report.json> [replay-file]");
         std::process::exit(2);
     }
+    if args.len() >= 2 && args[1] == "c01-child" { props::c01::child_main(&args[2..]); return; }
     if args[1] == "print-ast" { props::probe::print_ast(&std::fs::read_to_string(&args[2]).unwrap()); return; }
     if args[1] == "rerun-step" {
         let v: serde_json::Value = serde_json::from_str(&std::fs::read_to_string(&args[2]).unwrap()).unwrap();
@@ -46,6 +47,7 @@ fn main() {
         "C15" => props::c15::run(&mut ctx, &mut report),
         "C21" => props::c21::run(&mut ctx, &mut report),
         "C17" => props::c17::run(&mut ctx, &mut report),
+        "C01" => props::c01::run(&mut ctx, &mut report),
         "C28" => props::c28::run(&mut ctx, &mut report),
         "C22" => props::c22::run(&mut ctx, &mut report),
         "C26" => props::c26::run(&mut ctx, &mut report),
